@@ -498,6 +498,8 @@ class Runtime:
         if isinstance(obj, ModuleObj):
             if name in ("__name__",):
                 return obj.name
+            if name == "__path__":
+                return [obj.name]
             return self.module_attr(interp, obj, name, node)
         if isinstance(obj, NT):
             if name in obj.pycls.fields:
